@@ -1121,6 +1121,68 @@ impl Monitor {
             }
         }
 
+        // ---- C08 / C14: an execution of a canceled / aborted task that nobody will ever stop ----
+        if self.on(Prop::C08) || self.on(Prop::C14) {
+            let mut doomed: Vec<(TaskId, u8, &'static str)> = Vec::new();
+            let names_in = |f: &[u8], t: TaskId, want_cancel: bool| -> bool {
+                use tako::verif::messages::ToWorkerMessage as M;
+                match tako::verif::decode_to_worker(f) {
+                    Some(M::CancelTasks(m)) if want_cancel => m.ids.contains(&t),
+                    Some(M::ComputeTasks(m)) if !want_cancel => m.tasks.iter().any(|x| x.id == t),
+                    _ => false,
+                }
+            };
+            for (t, st) in &self.s.st {
+                if !matches!(st, TStatus::Canceled | TStatus::Aborted) {
+                    continue;
+                }
+                for (si, w) in sys.workers.iter().enumerate() {
+                    let Some(w) = w else { continue };
+                    let si8 = si as u8;
+                    let told = self.s.cancel_told.contains(&(si8, *t));
+                    let cancel_in_flight = w.to_worker.iter().any(|f| names_in(f, *t, true));
+                    // (a) a running execution without stop signal and nobody on the way to stop it
+                    let running_unstopped = sys.launcher.borrow().execs.iter().any(|e| {
+                        e.slot == si8 && e.task == *t && matches!(e.state, ExecState::Running) && e.stop_reason.is_none()
+                    });
+                    if running_unstopped && !told && !cancel_in_flight {
+                        doomed.push((*t, si8, "running-execution"));
+                    }
+                    // (b) a ComputeTasks still in flight that no CancelTasks follows
+                    let mut compute_pos = None;
+                    let mut cancel_after = false;
+                    for (i, f) in w.to_worker.iter().enumerate() {
+                        if names_in(f, *t, false) {
+                            compute_pos = Some(i);
+                            cancel_after = false;
+                        } else if compute_pos.is_some() && names_in(f, *t, true) {
+                            cancel_after = true;
+                        }
+                    }
+                    if compute_pos.is_some() && !cancel_after {
+                        doomed.push((*t, si8, "compute-in-flight"));
+                    }
+                }
+            }
+            for (t, slot, what) in doomed {
+                let key = format!("doomed:{t}:{slot}:{what}");
+                if self.s.bad_now.contains(&key) {
+                    continue;
+                }
+                self.s.bad_now.insert(key);
+                let st = self.status(t);
+                let d = format!(
+                    "task {t} is {st:?} but worker slot {slot} has a {what} of it and no CancelTasks naming it is on its way"
+                );
+                let site = format!("{what}-after-{}", self.step_label);
+                if st == TStatus::Canceled {
+                    self.v(Prop::C08, "canceled-task-keeps-running", site, d);
+                } else {
+                    self.v(Prop::C14, "aborted-task-keeps-running", site, d);
+                }
+            }
+        }
+
         // ---- C06: one live execution per task on connected workers ----
         if self.on(Prop::C06) {
             let l = sys.launcher.borrow();
